@@ -236,6 +236,31 @@ def check_parser_reads(model, rep, rule):
     sl = [n for n in cfg.nodes if n.ast is not None and n.kind == "stmt" and "self.wire[self.current:self.current + size]" in src(n.ast)]
     okk = len(tests) == 1 and len(sl) == 1 and cfg.edge_dominated(sl[0].id, {(tests[0].id, "f")}) and any(isinstance(s, ast.Raise) and "FormError" in src(s) for s in tests[0].ast.body)
     rep.check(okk, rule, gb.qualname, where(gb, gb.node), "the slice is taken only when size <= remaining(), else FormError", "Parser.get_bytes can slice past the end (short reads become struct.error/IndexError further on)", stmt="bounded-slice")
+    # the generator context managers of the parser restore what they changed on EVERY exit (the body of a `with` raises for every malformed rdata)
+    n_cm = 0
+    for mn, fcm in sorted(model.cls(P).methods.items()):
+        if not any(dotted(d if not isinstance(d, ast.Call) else d.func) in ("contextlib.contextmanager", "contextmanager") for d in fcm.node.decorator_list):
+            continue
+        ylds = [y for y in ast.walk(fcm.node) if isinstance(y, (ast.Yield, ast.YieldFrom))]
+        if len(ylds) != 1:
+            rep.blind(rule, fcm.qualname, where(fcm, fcm.node), f"{len(ylds)} yields in a context manager", stmt="cm-restores")
+            continue
+        n_cm += 1
+        par_cm = {id(ch): pr for pr in ast.walk(fcm.node) for ch in ast.iter_child_nodes(pr)}
+        enclosing, cur = [], par_cm.get(id(ylds[0]))
+        child = ylds[0]
+        while cur is not None:
+            if isinstance(cur, ast.Try) and any(child is b or child in list(ast.walk(b)) for b in cur.body):
+                enclosing.append(cur)
+            child, cur = cur, par_cm.get(id(cur))
+        restored = {src(t_) for tr in enclosing for fs in tr.finalbody for x in ast.walk(fs) if isinstance(x, ast.Assign) for t_ in x.targets if isinstance(t_, ast.Attribute) and src(t_.value) == "self"}
+        yline = ylds[0].lineno
+        changed = {src(t_) for x in ast.walk(fcm.node) if isinstance(x, (ast.Assign, ast.AugAssign)) and x.lineno < yline
+                   for t_ in (x.targets if isinstance(x, ast.Assign) else [x.target]) if isinstance(t_, ast.Attribute) and src(t_.value) == "self"}
+        rep.check(bool(restored) and changed <= restored, rule, fcm.qualname, where(fcm, ylds[0]), f"{sorted(restored)} restored in a `finally` around the yield",
+                  (f"{sorted(changed - restored) or 'parser state'} set for the body of the `with` is not restored in a `finally` that covers the yield: when the body raises (a malformed rdata under continue_on_error) the parser "
+                   "stays restricted / misplaced and every later name or record of the buffer fails to decode"), stmt="cm-restores")
+    rep.floor(rule + "-context-managers", n_cm, 2)
     import struct as _st
     for name, fmt, n in (("get_uint8", "!B", 1), ("get_uint16", "!H", 2), ("get_uint32", "!I", 4)):
         f = model.func(f"{P}.{name}")
@@ -587,7 +612,7 @@ def run(model, rep, tier):
                           f"`{src(c)[:60]}` decodes wire octets with a lenient handler: the value is accepted, but the strict encode in to_wire()/__hash__ raises UnicodeEncodeError later, outside the "
                           "FormError wrapper", stmt=f"strict-decode {src(c.func.value)[:30]}")
     rep.floor("R-04.11", n_dec, 3)
-    rep.share(model, "C05", {"R-05.1t", "R-05.11"}, "R-04.10", "every rdata constructor runs inside the FormError wrapper of from_wire; text production of the parsed value does not")
+    rep.share(model, "C05", {"R-05.1", "R-05.1t", "R-05.11"}, "R-04.10", "every rdata constructor runs inside the FormError wrapper of from_wire; text production of the parsed value does not")
     rep.share(model, "C02", {"R-02.2"}, "R-04.9", "rdata and EDNS options are parsed inside `with parser.restrict_to(rdlen)`; continue_on_error keeps using the same parser after a failure", only=lambda o: o.stmt == "restrict-shape")
     rep.meta["explanation"] = (
         "Interprocedural exception-escape analysis: explicit raises everywhere, a frozen table of implicit raisers (subscripts, int(), struct, encode/decode, assert, next, division) inside the parse zone, "
@@ -597,6 +622,12 @@ def run(model, rep, tier):
 
 
 WITNESSES = [
+    {"id": "c04-restrict-to-restores-only-on-success", "rule": "R-04.5", "file": "dns/wirebase.py", "expect": "fires",
+     "old": "        try:\n            self.end = self.current + size\n            yield\n", "new": "        self.end = self.current + size\n        yield\n        try:\n"},
+    {"id": "c04-restore-furthest-without-finally", "rule": "R-04.5", "file": "dns/wirebase.py", "expect": "fires",
+     "old": "        try:\n            yield None\n        finally:\n            self.current = self.furthest", "new": "        yield None\n        self.current = self.furthest"},
+    {"id": "c04-twin-restrict-to-assign-before-try", "rule": "R-04.5", "file": "dns/wirebase.py", "expect": "silent",
+     "old": "        saved_end = self.end\n        try:\n            self.end = self.current + size\n            yield\n", "new": "        saved_end = self.end\n        self.end = self.current + size\n        try:\n            yield\n"},
     {"id": "c04-nsid-to-text-any-printable", "rule": "R-04.12", "file": "dns/edns.py", "expect": "fires",
      "old": "        if all(c >= 0x20 and c <= 0x7E for c in self.nsid):", "new": "        if any(c >= 0x20 and c <= 0x7E for c in self.nsid):"},
     {"id": "c04-grange-step-zero", "rule": "R-04.12", "file": "dns/grange.py", "expect": "fires",
